@@ -32,12 +32,13 @@ ANCHORS = [
     "job_shop_lib._scheduled_operation:ScheduledOperation.__init__",
     "job_shop_lib._schedule:Schedule.add",
     "job_shop_lib.reinforcement_learning._single_job_shop_graph_env:SingleJobShopGraphEnv.step",
+    "job_shop_lib.reinforcement_learning._multi_job_shop_graph_env:MultiJobShopGraphEnv.step",
 ]
 ASSUMPTIONS = [
     "negative job ids passed to env.step are Python-valid indices and are not judged",
     "any exception type counts as 'raises'",
 ]
-REQUIRED_COUNTERS = {"injections": 2000, "env_injections": 200, "twin_comparisons": 30,
+REQUIRED_COUNTERS = {"multi_env_injections": 200, "injections": 2000, "env_injections": 200, "twin_comparisons": 30,
                      "kind_already_scheduled": 50, "kind_ahead_of_next": 50,
                      "kind_ineligible_machine": 50, "kind_machine_out_of_range": 50,
                      "kind_machine_minus_one": 50, "kind_none_machine_flexible": 10,
@@ -52,6 +53,10 @@ def gen_cases(ctx):
                              classes=gen.INSTANCE_CLASSES + ["flexible"])
         c["kind"] = "dispatcher" if i % 3 else "env"
         yield c
+    for i in range(ctx.scale(40, 800)):
+        yield {"kind": "multi_env", "seed": rng.randrange(10**6), "instance": {"cls": "generated"},
+               "policy": "random", "filter": None,
+               "recirc": rng.random() < 0.3}
 
 
 class Spy:
@@ -265,9 +270,70 @@ def run_env_case(ctx, case):
         ctx.samples.append({"env_instance": inst, "history": list(r.history)})
 
 
+def run_multi_env_case(ctx, case):
+    """Invalid steps on the multi-instance environment (its own step() path)."""
+    from job_shop_lib.dispatching import DispatcherObserverConfig
+    from job_shop_lib.generation import GeneralInstanceGenerator
+    from job_shop_lib.reinforcement_learning import MultiJobShopGraphEnv
+    from ..ref import Ref
+    rng = random.Random(case["seed"])
+    g = GeneralInstanceGenerator(num_jobs=(2, 4), num_machines=(2, 4), duration_range=(1, 9),
+                                 allow_recirculation=False, seed=case["seed"])
+    env = MultiJobShopGraphEnv(g, [DispatcherObserverConfig("is_ready"), DispatcherObserverConfig("duration")])
+    for episode in range(2):
+        env.reset()
+        I = env.instance
+        inst = {"durations": [[op.duration for op in job] for job in I.jobs],
+                "machines": [[list(op.machines) for op in job] for job in I.jobs]}
+        r = Ref(inst)
+        M, J = r.num_machines, r.num_jobs
+        while True:
+            bad = []
+            for j in range(J):
+                if r.job_next[j] >= len(r.job_ops[j]):
+                    bad.append(("env_finished_job", (j, -1)))
+                else:
+                    o = r.job_ops[j][r.job_next[j]]
+                    inel = [m for m in range(M) if m not in r.op_machines[o]]
+                    if inel:
+                        bad.append(("env_ineligible_machine", (j, rng.choice(inel))))
+                    # ids beyond this episode's instance (it may be smaller than the maximum size)
+                    bad.append(("env_machine_out_of_range", (j, M)))
+                    bad.append(("env_machine_out_of_range", (j, M + 1)))
+            bad.append(("env_job_out_of_range", (J, -1)))
+            for kind, action in bad:
+                inner = env.single_job_shop_graph_env
+                before = env_snapshot(inner)
+                raised = None
+                try:
+                    env.step(action)
+                except Exception as e:
+                    raised = type(e).__name__
+                ctx.count("multi_env_injections")
+                ctx.count("kind_" + kind)
+                w = {"fault": kind, "action": action, "history": list(r.history), "raised": raised,
+                     "instance": inst, "env": "multi"}
+                if raised is None:
+                    ctx.violation("c09_env_invalid_step_accepted", w)
+                    return
+                if env_snapshot(env.single_job_shop_graph_env) != before:
+                    ctx.violation("c09_env_state_changed_by_rejected_step", w)
+                if r.scheduled() and r.unscheduled():
+                    ctx.distinct.add(f"multi:{hash((str(inst), tuple(r.history), kind, action))}")
+            if r.complete():
+                break
+            op = rng.choice(env.dispatcher.available_operations())
+            m = rng.choice(op.machines)
+            env.step((op.job_id, m))
+            r.apply(op.operation_id, m)
+    ctx.evaluations += 1
+
+
 def run_case(ctx, case):
     if case["kind"] == "dispatcher":
         run_dispatcher_case(ctx, case)
+    elif case["kind"] == "multi_env":
+        run_multi_env_case(ctx, case)
     else:
         run_env_case(ctx, case)
     ctx.count("class_" + case["instance"]["cls"])
